@@ -26,6 +26,10 @@ pub enum Kind {
     IdentityMass,
     /// analytic vs finite-difference Jacobian
     JacSource,
+    /// the default finite-difference Jacobian itself, entry by entry against the analytic one, at a state on
+    /// the solution whose components have magnitudes 2^k_i (k_i = 0..10: the increment rule max(|y_j|, 1) then
+    /// differs from column to column), and the two runs it feeds
+    FdJacobian { mags: Vec<u8>, at: f64 },
 }
 
 #[derive(Serialize, Deserialize, Clone, Debug)]
@@ -392,6 +396,87 @@ pub fn check(c: &Case) -> Outcome {
             }
             Outcome::pass("identity-mass", base.naccpt >= 3, json!({"n": n}))
         }
+        Kind::FdJacobian { mags, at } => {
+            // the same problem with per-component units 2^k_i
+            let mut spec = c.prob.clone();
+            let rot = spec.mix.as_ref().map(|m| m.rot.clone()).unwrap_or_default();
+            spec.mix = Some(Mix { rot, scale: (0..n).map(|i| 2f64.powi(mags[i % mags.len()] as i32)).collect() });
+            let prob = Prob::new(&spec, sp.x0, sp.xend);
+            let t = sp.x0 + at * (sp.xend - sp.x0);
+            let y = prob.exact(t);
+            let none: Vec<EvSpec> = vec![];
+            let mut instr = Instr::new(&prob, &none);
+            instr.use_jac = false;
+            let mut jm = ivp::prelude::Matrix::full(n, n);
+            {
+                use ivp::prelude::IVP;
+                instr.jac(t, &y, &mut jm);
+            }
+            let mut ja = vec![0.0; n * n];
+            prob.jac_dense(t, &y, &mut ja);
+            let mut f0 = vec![0.0; n];
+            prob.f(t, &y, &mut f0);
+            let se = f64::EPSILON.sqrt();
+            let mut worst: f64 = 0.0;
+            // rounding noise of the right-hand side at this state, measured: largest change of f_i under
+            // perturbations of y by one or two ulps in every component (the mixing S g(S^-1 y) cancels, so the
+            // noise is not eps*|f_i|)
+            let mut noise = vec![0.0f64; n];
+            for q in 0..4 {
+                let yq: Vec<f64> = y.iter().enumerate().map(|(k, v)| v * (1.0 + f64::EPSILON * (((k + q) % 3) as f64 - 1.0) * (1.0 + (q / 2) as f64))).collect();
+                let mut fq = vec![0.0; n];
+                prob.f(t, &yq, &mut fq);
+                for i in 0..n {
+                    noise[i] = noise[i].max((fq[i] - f0[i]).abs());
+                }
+            }
+            for j in 0..n {
+                // documented increment; truncation error of a forward difference from the harness's own second difference
+                let delta = se * y[j].abs().max(1.0);
+                let (mut yp, mut ym) = (y.clone(), y.clone());
+                yp[j] += delta;
+                ym[j] -= delta;
+                let (mut fp, mut fm) = (vec![0.0; n], vec![0.0; n]);
+                prob.f(t, &yp, &mut fp);
+                prob.f(t, &ym, &mut fm);
+                for i in 0..n {
+                    let second = (fp[i] - 2.0 * f0[i] + fm[i]).abs();
+                    let fscale = f0[i].abs().max(fp[i].abs()).max(fm[i].abs());
+                    let tol = 4.0 * second / (2.0 * delta) + (16.0 * noise[i] + 64.0 * f64::EPSILON * fscale) / delta + 1e-9 * ja[i * n + j].abs();
+                    let e = (jm[(i, j)] - ja[i * n + j]).abs();
+                    if e > tol {
+                        return Outcome::viol(format!("default finite-difference Jacobian: entry ({},{}) = {:e} but the analytic one is {:e} (difference {:e}, allowed {:e}; |y_j| = {:e}, |y_i| = {:e})", i, j, jm[(i, j)], ja[i * n + j], e, tol, y[j].abs(), y[i].abs()));
+                    }
+                    if tol > 0.0 {
+                        worst = worst.max(e / tol);
+                    }
+                }
+            }
+            // and the runs: when the analytic Jacobian gets through, the default one must too, within the bound
+            let y0 = prob.y0();
+            let sa = match solve_with(&prob, c, &y0, true, None, None, &Extra::default()) {
+                Ok(s) => s,
+                Err(e) => return Outcome::triv(format!("run:{}", e.chars().take(30).collect::<String>())),
+            };
+            if sa.status != Status::Success {
+                return Outcome::triv(format!("status:{}", status_name(sa.status)));
+            }
+            let sf = match solve_with(&prob, c, &y0, false, None, None, &Extra::default()) {
+                Ok(s) => s,
+                Err(e) => return Outcome::viol(format!("{}: solves with the analytic Jacobian but with the default finite-difference one: {}", name, e)),
+            };
+            if sf.status != Status::Success {
+                return Outcome::viol(format!("{}: Success with the analytic Jacobian ({} steps) but {} with the default finite-difference one ({} steps; component magnitudes 2^{:?})", name, sa.naccpt, status_name(sf.status), sf.nstep, &mags[..n.min(mags.len())]));
+            }
+            let b = acc_bound(&prob, &sf, c, 1.0);
+            for (t, y) in sf.t.iter().zip(&sf.y) {
+                let e = max_abs_diff(y, &prob.exact(*t));
+                if e > b {
+                    return Outcome::viol(format!("{} with the finite-difference Jacobian: error {:e} at t={:e} exceeds {:e}", name, e, t, b));
+                }
+            }
+            Outcome::pass(format!("{}:fd-jacobian", name), mags.iter().take(n).any(|k| *k >= 1), json!({"n": n, "fd_jac_err_over_allowed": worst, "steps_fd": sf.naccpt, "steps_analytic": sa.naccpt}))
+        }
         Kind::JacSource => {
             for analytic in [true, false] {
                 let s = match solve_with(&prob, c, &y0, analytic, None, None, &Extra::default()) {
@@ -399,6 +484,9 @@ pub fn check(c: &Case) -> Outcome {
                     Err(e) => return Outcome::triv(format!("run:{}", e.chars().take(30).collect::<String>())),
                 };
                 if s.status != Status::Success {
+                    if !analytic {
+                        return Outcome::viol(format!("{}: Success with the analytic Jacobian but {} with the default finite-difference one", name, status_name(s.status)));
+                    }
                     return Outcome::triv(format!("status:{}", status_name(s.status)));
                 }
                 let b = acc_bound(&prob, &s, c, 1.0);
@@ -425,12 +513,13 @@ pub fn strategy() -> BoxedStrategy<Case> {
             .prop_map(|(n, ml, mu, coef, diag)| Kind::JacStorage { n, ml, mu, coef: coef.into_iter().map(|(s, m)| s * m).collect(), diag }),
         1 => Just(Kind::IdentityMass),
         1 => Just(Kind::JacSource),
+        2 => (proptest::collection::vec(0u8..=10, 6..=6), fr(0.0, 1.0)).prop_map(|(mags, at)| Kind::FdJacobian { mags, at }),
     ];
     (prob_spec(6, 0.5, 6.0), span_mid(), prop_oneof![Just(Meth::RADAU), Just(Meth::BDF)], fr(3.0, 8.0), fr(-3.0, 0.0), kind)
         .prop_map(|(prob, span, method, re, ar, kind)| {
             // mass matrices are Radau only
             let method = match kind {
-                Kind::JacStorage { .. } | Kind::JacSource => method,
+                Kind::JacStorage { .. } | Kind::JacSource | Kind::FdJacobian { .. } => method,
                 _ => Meth::RADAU,
             };
             Case { prob, span, method, rtol: 10f64.powf(-re), atol_rel: 10f64.powf(ar), kind }
@@ -446,7 +535,7 @@ pub fn run(ctx: &Ctx, known: &[Known]) -> Report {
     let stats = run_generated(ctx, "C15", "gen", &strategy, &check, cases, known);
     Report {
         id: "C15".into(),
-        rule: "six kinds of cases on closed-form problems (n<=6) and banded nonlinear systems (n<=8): (a) M y' = M g with M strictly diagonally dominant, dense or banded (all (ml,mu)), against the exact solution of y'=g, and Full vs Banded mass storage bit-identical; (b) index-1 DAEs y1' = g(t,y1) + B(y2 - psi(y1)), 0 = psi(y1) - y2 with M = diag(I,0): constraint residual at every sample and y1 against the exact solution of the reduced ODE; (c) no mass override: mass_storage Identity / Full / Banded and the low-level RADAU::builder() defaults give the same run; (d) Full vs Banded Jacobian storage with an analytic banded Jacobian, Radau and BDF, bit-identical incl. counters; identity mass in Identity / Full / Banded{0,0}; (e) analytic vs finite-difference Jacobian both within the accuracy bound. Non-trivial = M not diagonal / n2 >= 1 / bandwidth below n-1 / at least 3 steps. Distinct = distinct canonical JSON.".into(),
+        rule: "six kinds of cases on closed-form problems (n<=6) and banded nonlinear systems (n<=8): (a) M y' = M g with M strictly diagonally dominant, dense or banded (all (ml,mu)), against the exact solution of y'=g, and Full vs Banded mass storage bit-identical; (b) index-1 DAEs y1' = g(t,y1) + B(y2 - psi(y1)), 0 = psi(y1) - y2 with M = diag(I,0): constraint residual at every sample and y1 against the exact solution of the reduced ODE; (c) no mass override: mass_storage Identity / Full / Banded and the low-level RADAU::builder() defaults give the same run; (d) Full vs Banded Jacobian storage with an analytic banded Jacobian, Radau and BDF, bit-identical incl. counters; identity mass in Identity / Full / Banded{0,0}; (e) analytic vs finite-difference Jacobian both within the accuracy bound (a run that succeeds with the analytic one must succeed with the default one); (f) the default finite-difference Jacobian entry by entry against the analytic one at an on-solution state with component magnitudes 2^0..2^10 (tolerance = 4 x the forward-difference truncation term measured by the harness's own second difference + 16 x the measured rounding noise of f / delta), and the two runs. Non-trivial = M not diagonal / n2 >= 1 / bandwidth below n-1 / at least 3 steps. Distinct = distinct canonical JSON.".into(),
         assumptions: vec!["accuracy bound as in C01 with cond(M) <= 5 for the diagonally dominant mass matrices".into(), "constraint residual bound C*tolscale*sqrt(naccpt)".into()],
         min_nontrivial_frac: 0.5,
         stats,
